@@ -168,4 +168,10 @@ theorem litValue_real (i k fv : Nat) (hfv : fv < 10 ^ k) (neg : Bool) (x : Nat) 
   simp only [digitsVal_toDigits, frac_val k fv hfv, expo_val neg x]
   simp
 
+/-! string literals -/
+
+theorem strLitValue_quoted (cs : List Char) :
+    strLitValue (String.ofList ('"' :: (cs ++ ['"']))) = some (String.ofList cs) := by
+  simp [strLitValue, String.toList_ofList]
+
 end PymocaVerif.ExprGrammar
